@@ -107,6 +107,52 @@ impl VerifPool {
         Ok(Self { pool })
     }
 
+    /// As [`VerifPool::new_with`] (no keyspace, no keep-alive), with the source address, the
+    /// shard-aware source-port range and `SO_REUSEADDR` of the pool's connections chosen by the caller.
+    #[allow(clippy::too_many_arguments)]
+    pub fn new_with_ports(
+        addr: SocketAddr,
+        pool_size: PoolSize,
+        can_use_shard_aware_port: bool,
+        local_ip_address: Option<std::net::IpAddr>,
+        shard_aware_local_port_range: crate::routing::ShardAwarePortRange,
+        tcp_reuse_address: Option<bool>,
+        connect_timeout: Option<Duration>,
+        reconnect_policy: Option<Arc<dyn crate::policies::reconnect::ReconnectPolicy>>,
+    ) -> Result<Self, String> {
+        let mut connection_config = cv::connection_config();
+        connection_config.local_ip_address = local_ip_address;
+        connection_config.shard_aware_local_port_range = shard_aware_local_port_range;
+        connection_config.tcp_socket_options.reuse_address = tcp_reuse_address;
+        if let Some(t) = connect_timeout {
+            connection_config.connect_timeout = t;
+        }
+        let pool_config = PoolConfig {
+            connection_config,
+            pool_size,
+            can_use_shard_aware_port,
+            reconnect_policy: reconnect_policy.unwrap_or_else(|| {
+                Arc::new(crate::policies::reconnect::ConstantReconnectPolicy::new(
+                    Duration::from_millis(50),
+                ))
+            }),
+        };
+        let (pool_empty_notifier, _) = mpsc::channel(1);
+        let endpoint =
+            UntranslatedEndpoint::ContactPoint(crate::cluster::node::ResolvedContactPoint {
+                address: addr,
+            });
+        let pool = NodeConnectionPool::new(
+            endpoint,
+            &pool_config,
+            None,
+            None,
+            pool_empty_notifier,
+            Metrics::new(),
+        );
+        Ok(Self { pool })
+    }
+
     pub async fn wait_until_initialized(&self) {
         self.pool.wait_until_initialized().await
     }
